@@ -637,18 +637,21 @@ PROPS["C13"] = dict(
         "quick": [
             dict(_ca, harness="VerifHarness_C13_fail", reach=["failed-file", "failed-all", "failed-none"], validate=1),
             dict(_ca, harness="VerifHarness_C13_dryrun", reach=["dry-run"], validate=1),
+            dict(_ca, harness="VerifHarness_C13_schema_apply", reach=["applied", "failed-none", "failed-tx"], validate=4),
             dict(_ca, harness="VerifHarness_C13_dryrun_witness", role="witness", key="C13-dry-run-writes"),
         ],
         "thorough": [
             dict(_ca, harness="VerifHarness_C13_fail3", reach=["failed-file", "failed-all", "failed-none"], validate=3),
             dict(_ca, harness="VerifHarness_C13_dryrun", reach=["dry-run"], validate=3),
+            dict(_ca, harness="VerifHarness_C13_schema_apply3", reach=["applied", "failed-none", "failed-tx"], validate=6),
             dict(_ca, harness="VerifHarness_C13_dryrun_witness", role="witness", key="C13-dry-run-writes"),
         ],
     },
     bounds={
         "quick": "directories of 1..2 files x 1..2 statements, --tx-mode {file, all, none}, per-file `atlas:txmode` directive {absent, none, file}, every position "
-                 "of the failing statement, then fix-and-re-run; dry-run on a fresh database and on one with history, with and without --baseline",
-        "thorough": "same with up to 3 files",
+                 "of the failing statement, then fix-and-re-run; dry-run on a fresh database and on one with history, with and without --baseline; schema apply: applyChanges over 1..2 changes (AddTable "
+                 "with 0..2 indexes, i.e. 1..3 statements each, planned by the real SQLite planner), tx mode {default, none}, every position of a failing statement",
+        "thorough": "same with up to 3 files / 3 changes",
     },
     assumptions=[
         "engine side: the real migrateApplyRun / tx multiplexer / Executor run against a transactional model store (journal, revision table, one open "
@@ -656,10 +659,11 @@ PROPS["C13"] = dict(
         "every counterexample is replayed on the real `migrate apply` command with a real SQLite file (harness/cmdapi/zz_verif_env.go), failing statement = insert into a missing table",
         "inputs are structural (shape, mode, directives, failing position): explored by forking",
     ],
-    outside="schema apply (applyChanges), SQLite OpenTx foreign-key toggling and deferred violations, other dialects' implicit commits, reports / exit codes",
+    outside="schema apply beyond applyChanges (diffing, approval, lint), SQLite OpenTx foreign-key toggling and deferred violations, other dialects' implicit commits, reports / exit codes",
     claim="For every shape, transaction mode, directive assignment and failing position within the bounds, after a failure the store holds exactly what the "
           "mode promises (file: complete files before the failing one; all: nothing; none: the successful prefix) with revisions matching the journal, and fixing "
-          "the file and re-running reaches the fault-free final state; a dry run on a database with history changes nothing. A dry run on a database without revision "
+          "the file and re-running reaches the fault-free final state; a dry run on a database with history changes nothing; applyChanges (schema apply) "
+          "leaves nothing of a failed plan in its default mode and exactly the successful prefix in none mode. A dry run on a database without revision "
           "table is the listed known finding.",
     note="Model-store based (bounded); stub fidelity is guarded by replaying counterexamples and sampled paths on the real CLI + SQLite.",
 )
